@@ -5,6 +5,8 @@ its own bookkeeping, block contents and owning pointer, over one allocator ledge
 import Cntgs.World
 import Cntgs.Props.C01
 import Cntgs.FixProofs
+import Cntgs.WorldProofs
+import Cntgs.Dec
 namespace Cntgs.C09
 
 /-- what a vector shows through its public interface besides capacity: size, fixed sizes, every element -/
@@ -222,5 +224,33 @@ theorem copy_is_canonical (w : World) (s d : Nat) (vs : Vec) (es : List Elem) (h
       simp only [World.set]
       exact ⟨{ (vs.setPtr p) with tbl := t, loc := vs.loc.relocated w.junk }, by simp,
         relocated_offset_table hinv w.junk rfl rfl rfl hinv.clean⟩
+
+/-- **refinement of the whole multi-vector interface**: after any history of constructions, in-place operations,
+    copy/move constructions, copy/move assignments, swaps and destructions over any number of vectors (preconditions
+    respected, no allocation failure: those are C17), every vector represents exactly the plain sequence that the same
+    history produces on a map from names to plain sequences.  Copy, move and swap having value semantics is this theorem
+    read at `.copy`, `.move`, `.copyAssign`, `.moveAssign`, `.swap`. -/
+theorem history_any_number_of_vectors (ps : List Param) (hl : ListOK ps) (ops : List WOp) (w : World) (A : Nat → Option AVec)
+    (h : WInv ps w A) (hv : WValid ps w A ops) :
+    WInv ps (ops.foldl (fun w op => op.apply ps w) w) (arun ps w A ops) :=
+  history_refines ps hl ops w A h hv
+
+/-- … and what that means for the observations -/
+theorem observations (ps : List Param) (w : World) (A : Nat → Option AVec) (h : WInv ps w A) (k : Nat) (v : Vec)
+    (hv : w.vecs k = some v) :
+    (∀ es, A k = some (.live es) → v.abs = es.map some ∧ v.size = es.length ∧ v.poison = false) ∧
+    (A k = some .moved → v.size = 0 ∧ v.abs = [] ∧ v.poison = false) :=
+  h.observe k v hv
+
+/-- non-vacuity: construct `v0`, fill it, copy it to `v1`, change the copy, swap both, move `v1` to `v2`
+    (`uint32`, VaryingSize<AlignAs<float,16>>, `uint8`): all preconditions hold and no allocation fails -/
+def exOps : List WOp := [.new 0 [0, 0, 0] 3 64 1, .vop 0 (.emplace [[1], [7], [3]]), .vop 0 (.emplace [[2], [5, 6], [1]]), .copy 0 1,
+  .vop 1 .pop, .swap 0 1, .move 1 2, .destroy 0]
+
+example : (exOps.foldl (fun w op => op.apply C01.exPs w) ({} : World)).threw = false ∧
+    (arun C01.exPs ({} : World) (fun _ => none) exOps 2) matches some (.live [[[1], [7], [3]], [[2], [5, 6], [1]]]) := by
+  constructor
+  · decide +kernel
+  · decide +kernel
 
 end Cntgs.C09
